@@ -70,6 +70,70 @@ class Plain:
     def __repr__(self): return 'Plain()'
 
 
+# duck-typed classes defining an arbitrary subset of the dunder / protocol methods by which collections.abc (and
+# infer_hint's protocol probe) recognise containers, iterators, mappings, callables, awaitables ...
+DUCK_METHODS = {
+    '__iter__': lambda self: iter(self._i),
+    '__len__': lambda self: len(self._i),
+    '__contains__': lambda self, x: any(x is y for y in self._i),
+    '__getitem__': lambda self, i: self._i[i],
+    '__reversed__': lambda self: reversed(self._i),
+    '__next__': lambda self: next(iter(self._i)),
+    '__call__': lambda self, *a, **k: None,
+    '__setitem__': lambda self, i, v: None,
+    '__delitem__': lambda self, i: None,
+    'keys': lambda self: list(range(len(self._i))),
+    'values': lambda self: list(self._i),
+    'items': lambda self: list(enumerate(self._i)),
+    'get': lambda self, k, d=None: d,
+    'index': lambda self, v: 0,
+    'count': lambda self, v: 0,
+    'insert': lambda self, i, v: None,
+    'append': lambda self, v: None,
+    'add': lambda self, v: None,
+    'discard': lambda self, v: None,
+    '__enter__': lambda self: self,
+    '__exit__': lambda self, *a: None,
+    '__aiter__': lambda self: self,
+    '__hash__': lambda self: 7,
+    '__eq__': lambda self, o: self is o,
+    '__lt__': lambda self, o: False,
+    '__bool__': lambda self: True,
+    '__int__': lambda self: 1,
+    '__index__': lambda self: 1,
+    '__float__': lambda self: 1.0,
+    '__bytes__': lambda self: b'',
+    '__abs__': lambda self: 1,
+    '__round__': lambda self, n=None: 1,
+    '__complex__': lambda self: 1j,
+}
+_DUCKS = {}
+
+
+def duck(names, items):
+    key = tuple(sorted(names))
+    cls = _DUCKS.get(key)
+    if cls is None:
+        ns = {n: DUCK_METHODS[n] for n in key}
+        ns['__init__'] = lambda self, items=(): setattr(self, '_i', list(items))
+        ns['__repr__'] = lambda self: f'Duck{list(key)}({self._i!r})'
+        ns['_is_duck'] = True
+        cls = _DUCKS[key] = type('Duck_' + '_'.join(n.strip('_') for n in key)[:60], (), ns)
+    return cls(items)
+
+
+def gen_duck(rng, items):
+    r = rng.random()
+    core = ['__iter__', '__len__', '__contains__', '__getitem__', '__reversed__', '__next__']
+    if r < .5:
+        names = [n for n in core if rng.random() < .5]
+    elif r < .8:
+        names = [n for n in core if rng.random() < .5] + rng.sample(sorted(DUCK_METHODS), rng.randint(0, 4))
+    else:
+        names = rng.sample(sorted(DUCK_METHODS), rng.randint(1, 6))
+    return duck(set(names), items)
+
+
 class Colour(enum.Enum):
     RED = 1
     GREEN = 'g'
@@ -139,7 +203,7 @@ def gen_obj(rng, depth=3, hashable=False):
             return gen_obj(rng, rng.randint(0, depth - 1), h)
     kind = rng.choice(('list', 'list', 'tuple', 'tuple', 'set', 'frozenset', 'dict', 'dict', 'deque', 'OrderedDict',
                        'defaultdict', 'Counter', 'ChainMap', 'keys', 'values', 'items', 'UserSeq', 'UserMap',
-                       'UserSet', 'BareIter', 'BareIterLen', 'MappingProxy', 'ListSub', 'long-list'))
+                       'UserSet', 'BareIter', 'BareIterLen', 'MappingProxy', 'ListSub', 'long-list', 'Duck', 'Duck'))
     if hashable:
         kind = rng.choice(('tuple', 'frozenset'))
     try:
@@ -165,6 +229,8 @@ def gen_obj(rng, depth=3, hashable=False):
             return BareIter(item() for _ in range(n))
         if kind == 'BareIterLen':
             return BareIterLen(item() for _ in range(n))
+        if kind == 'Duck':
+            return gen_duck(rng, [item() for _ in range(n)])
         d = {item(True): item() for _ in range(n)}
         if kind == 'dict':
             return d
@@ -224,6 +290,8 @@ def obj_kind(x):
     if isinstance(x, enum.Enum):
         return 'enum-member'
     t = type(x)
+    if getattr(t, '_is_duck', False):
+        return 'duck-typed'
     return t.__name__
 
 
